@@ -223,6 +223,9 @@ class History:
         elif act == "QMetaData":
             self.streams.append(s.QMetaData({a["k"]: a["v"]}))
             self.shadow.append(sh)
+        elif act == "QMetaData2":
+            self.streams.append(s.QMetaData({"a": a["v"], "b": a["c"]}))
+            self.shadow.append(sh)
         elif act == "Terminal":
             self.streams.append(s.AsAwkwardArray(["c"]))
             self.shadow.append(sh.AsAwkwardArray(["c"]))
